@@ -5,7 +5,7 @@ import os
 import tempfile
 from typing import Any
 
-from .. import callseq, gens, oracle as O, patches, rsbridge, rscheck, symx
+from .. import callseq, gens, oracle as O, patches, refm, rsbridge, rscheck, symx
 from ..rsrt import Panic
 from . import common, c03, c04, c10
 
@@ -60,6 +60,25 @@ def checker_prefix(it: Any) -> None:
         m.execute_instructions(list(p), stack, memory, claims, m.ExecutionPhase__Proof)
 
 
+def _tracked_term_verdict(it: Any) -> str:
+    """is the term the toolkit's own tracker holds on top of its stack well-formed by the document?  It is re-encoded
+    canonically from the tracker's object (not from the emitted bytes) and built by the documented machine.  The known
+    findings of the D10 family are exactly the rejections in which it is not."""
+    from . import c01
+
+    if not it.stack:
+        return 'no tracked term'
+    kind, t = callseq.entry_term(it.stack[-1], dict(it._symbol_identifiers))
+    try:
+        m = refm.Machine()
+        m.run(c01.encode(t), 'gamma')
+        return 'tracked term well-formed'
+    except refm.Reject:
+        return 'tracked term ill-formed by the document'
+    except refm.Unspecified:
+        return 'tracked term unspecified by the document'
+
+
 def h_seq(ctx: Any, alphabet: str, steps: int, phase: str, twin: bool = False) -> None:
     it = c04._prelude(ctx, phase)
     alpha = callseq.ALPHABETS[alphabet]
@@ -81,6 +100,8 @@ def h_seq(ctx: Any, alphabet: str, steps: int, phase: str, twin: bool = False) -
             checker_prefix(it)
         except Panic as e:
             msg = (e.msg or e.site).split('{')[0].strip()
+            if call in ('mu', 'metavar', 'esubst', 'ssubst', 'lookalike'):
+                msg += '|' + _tracked_term_verdict(it)
             ctx.violation(f'C02.{call}.checker-rejects[{msg}]', f'calls {log!r}: the toolkit accepted and serialised them, the checker panics: {e}')
         if call == 'publish' and it.stack:
             it.stack.pop()  # re-synchronise the tracker (C04 K-C04-publish-keeps-term) so that later calls stay meaningful
@@ -198,17 +219,24 @@ def h_capture(ctx: Any, kind: str, twin: bool = False) -> None:
     it = c04._prelude(ctx, 'gamma')
     a, b, x, y = ctx.int('a'), ctx.int('b'), ctx.int('x'), ctx.int('y')
     log = []
+    # the binder inside the plug: of the kind that can capture the substituted-in variable, or of the other kind
+    # (exists b under a set-variable substitution, mu B under an element-variable substitution: never a capture)
+    other = ctx.choose(2, 'binder kind') == 1
     try:
         if kind == 'e':
-            plug = it.exists(b, it.evar(a))  # exists b. a
+            plug = it.mu(b, it.svar(b)) if other else it.exists(b, it.evar(a))  # mu B. B  /  exists b. a
+            if other:
+                plug = it.implies(plug, it.evar(a))
             inner = it.evar(y)
             mv = it.metavar(0)
             target = it.esubst(x, mv, inner)  # phi0[y/x]
+            t_target, t_plug = ('es', ('mv', 0, (), (), (), (), ()), x, ('ev', y)), O.expand(plug)
         else:
-            plug = it.mu(b, it.svar(a))  # mu B. A   (positive: A occurs positively)
+            plug = it.exists(b, it.svar(a)) if other else it.mu(b, it.svar(a))  # exists b. A  /  mu B. A
             inner = it.svar(y)
             mv = it.metavar(0)
             target = it.ssubst(x, mv, inner)  # phi0[Y/X]
+            t_target, t_plug = ('ss', ('mv', 0, (), (), (), (), ()), x, ('sv', y)), O.expand(plug)
         log.append(f'target {target!r}, phi0 := {plug!r}')
         checker_prefix(it)
         it.instantiate_pattern(target, {0: plug})
@@ -222,12 +250,19 @@ def h_capture(ctx: Any, kind: str, twin: bool = False) -> None:
     ctx.sample({'kind': kind, 'calls': log})
     if twin:
         ctx.violation('TWIN')
+    # what the textbook says about this resolution: the substituted-in variable y against the binder b of the value
+    if other or not bool(y == b):
+        verdict = 'the plug mentions no binder of its kind'
+    elif bool(a == x):
+        verdict = 'capturing by the textbook'
+    else:
+        verdict = 'conservative: the plug mentions a passed binder, the variable does not occur below it'
     try:
         checker_prefix(it)
         ctx.count('accepted')
     except Panic as e:
         msg = (e.msg or e.site).split('{')[0].strip()
-        ctx.violation(f'C02.instantiate_pattern.checker-rejects[{msg}]', f'{log!r}: the toolkit resolved the pending substitution, the checker panics: {e}')
+        ctx.violation(f'C02.instantiate_pattern.checker-rejects[{msg}|{verdict}]', f'{log!r}: the toolkit resolved the pending substitution, the checker panics: {e}')
 
 
 # -- concrete modules through the real binary ---------------------------------------------------
